@@ -167,6 +167,27 @@ func loopSignatureCtx(c *Ctx, info *types.Info, l *argLoop) *loopSig {
 		case *ast.CallExpr:
 			if f := callee(info, x); f != nil {
 				s.calls[funcKey(f)]++
+				// a helper of the same package that receives the Parameter: the flags it reads are read for
+				// this loop's arguments
+				if c != nil && shortPkg(f.Pkg()) == "cty/function" {
+					takesParam := false
+					for _, a := range x.Args {
+						if namedType(info.TypeOf(a)) == "cty/function.Parameter" {
+							takesParam = true
+						}
+					}
+					if hd := c.Decl("cty/function", funcDeclKey(f)); takesParam && hd != nil && hd.Body != nil {
+						inspectNoLit(hd.Body, func(m ast.Node) bool {
+							if se, ok := m.(*ast.SelectorExpr); ok && strings.HasPrefix(se.Sel.Name, "Allow") && namedType(info.TypeOf(se.X)) == "cty/function.Parameter" {
+								s.flags[se.Sel.Name] = true
+								if _, have := s.flagPos[se.Sel.Name]; !have {
+									s.flagPos[se.Sel.Name] = x.Pos()
+								}
+							}
+							return true
+						})
+					}
+				}
 			} else if id, ok := ast.Unparen(x.Fun).(*ast.Ident); ok {
 				if b, ok := info.Uses[id].(*types.Builtin); ok && b.Name() != "len" {
 					s.calls["builtin."+b.Name()]++
@@ -355,6 +376,24 @@ func runArgIndex(rr *RuleRun) {
 				case *ast.CallExpr:
 					if isCall(info, x, "cty/function.NewArgError", "cty/function.NewArgErrorf") && len(x.Args) >= 1 {
 						check(callee(info, x).Name(), x.Args[0], x.Pos())
+					} else if f := callee(info, x); f != nil && shortPkg(f.Pkg()) == "cty/function" {
+						// a helper of the same package that forwards one of its int parameters as the index
+						// of the argument errors it builds: the argument passed for it is the index
+						if hd := c.Decl("cty/function", funcDeclKey(f)); hd != nil && hd.Body != nil {
+							for pi := 0; pi < len(x.Args); pi++ {
+								pid := paramIdent(hd, pi)
+								if pid == nil {
+									continue
+								}
+								po := info.Defs[pid]
+								inspectNoLit(hd.Body, func(m ast.Node) bool {
+									if hc, ok := m.(*ast.CallExpr); ok && isCall(info, hc, "cty/function.NewArgError", "cty/function.NewArgErrorf") && len(hc.Args) >= 1 && objOf(info, hc.Args[0]) == po {
+										check(f.Name()+"→"+callee(info, hc).Name(), x.Args[pi], x.Pos())
+									}
+									return true
+								})
+							}
+						}
 					}
 				case *ast.AssignStmt:
 					for _, lh := range x.Lhs {
